@@ -59,6 +59,7 @@ class InterfaceType(enum.Enum):
 class InterfaceSliver(BaseSliver):
 
     NAME_REGEX = r'^[\w\-+_/\.\ :]{1,255}$'
+    TYPE_CLASS = InterfaceType
 
     def __init__(self):
         # addresses are stored on labels, bandwidth on capacities
